@@ -506,6 +506,8 @@ func TestCheck(t *testing.T) {
 	jobs := []hist.Job{
 		{Name: "journal-equal-txid-fork", Cfg: hist.Config{PageSize: 512, Start: 3, R2Starts: "absent", Alphabet: alpha, Prelude: []string{"part:R1", "tx:a:t1", "demote", "tx:a:tl"}}, Depth: 3, Budget: 50 * time.Second},
 		{Name: "wal-former-primary-ahead-by-two", Cfg: hist.Config{PageSize: 512, Start: 3, WAL: true, R2Starts: "absent", Alphabet: alpha, Prelude: []string{"part:R1", "tx:a:t1", "tx:a:g1", "demote"}}, Depth: 3, Budget: 50 * time.Second},
+		// the new primary has one transaction only - the creation, written by the former primary, which is one ahead
+		{Name: "journal-former-primary-ahead-of-txid-1", Cfg: hist.Config{PageSize: 512, Start: 3, R2Starts: "absent", Alphabet: alpha, Prelude: []string{"part:R1", "tx:a:t1", "demote"}}, Depth: 2, Budget: 50 * time.Second},
 		{Name: "journal-behind-fork", Cfg: hist.Config{PageSize: 512, Start: 3, R2Starts: "partitioned", Alphabet: alpha, Prelude: []string{"part:R1", "tx:a:tl", "demote", "tx:a:t1", "tx:a:g1"}}, Depth: 2, Budget: 50 * time.Second},
 	}
 	if run.Thorough() {
